@@ -4,6 +4,7 @@
 -/
 import MelModel.Proto
 import MelModel.ProtoState
+import MelModel.Merkle
 open Mel Mel.VM Mel.Proto
 
 /-! ### VM-level operations -/
@@ -64,6 +65,9 @@ structure DWorld where
   unsealed : List (String × State) := []
   sealed : List (String × Sealed) := []
   hdrHashes : List (Header × Hash) := []
+  trees : List (String × Merkle.Tree) := []
+  dense : List (String × List Bytes) := []
+  roots : List Hash := []          -- distinct roots seen, in order of first appearance
   deriving Inhabited
 
 def lookup {α} (l : List (String × α)) (k : String) : Option α := (l.find? (·.1 == k)).map (·.2)
@@ -278,6 +282,77 @@ def handleConfirm (w : DWorld) (src roots hh entries : String) : String :=
     | none => "bad-op"
   | _, _, _ => "bad-op"
 
+/-! ### Merkle operations (reference hashers; only verdicts and root *equalities* are compared) -/
+
+open Mel.Merkle in
+def rootClass (w : DWorld) (r : Hash) : DWorld × Nat :=
+  match w.roots.findIdx? (· == r) with
+  | some i => (w, i)
+  | none => ({ w with roots := w.roots ++ [r] }, w.roots.length)
+
+open Mel.Merkle in
+def handleMt (w : DWorld) (name entries : String) : DWorld × String :=
+  let es : Option (List (Bytes × Bytes)) := parseList ";" (fun e =>
+    match e.splitOn "=" with
+    | [k, v] => do let k ← hexE k; let v ← hexE v; some (k, v)
+    | _ => none) entries
+  match es with
+  | none => (w, "bad-op")
+  | some es =>
+    let base := (lookup w.trees name).getD .empty
+    let t := es.foldl (fun t e => t.insert (bitsOf e.1) e.2) base
+    let (w1, c) := rootClass w (t.hash refHashers)
+    ({ w1 with trees := (name, t) :: w1.trees }, s!"ok r{c}")
+
+open Mel.Merkle in
+def handleMp (w : DWorld) (name key mode : String) : String :=
+  match lookup w.trees name, hexE key with
+  | some t, some k =>
+    let bits := bitsOf k
+    let proof := t.prove refHashers bits
+    let root := t.hash refHashers
+    let val := t.get bits
+    let tamper : Hash := hashData refHashers [116, 97, 109, 112, 101, 114]
+    match mode.splitOn ":" with
+    | ["honest"] => s!"{verify refHashers root bits val proof} {hexOrDash val}"
+    | ["wrongval"] => s!"{verify refHashers root bits (val ++ [1]) proof}"
+    | ["emptyval"] => s!"{verify refHashers root bits [] proof}"
+    | ["sibling", i] =>
+      match i.toNat? with
+      | some i => s!"{verify refHashers root bits val (proof.set i tamper)}"
+      | none => "bad-op"
+    | ["otherkey", k2] =>
+      match hexE k2 with
+      | some k2 => s!"{verify refHashers root (bitsOf k2) val proof}"
+      | none => "bad-op"
+    | _ => "bad-op"
+  | _, _ => "bad-op"
+
+open Mel.Merkle in
+def handleDt (w : DWorld) (name blocks : String) : DWorld × String :=
+  match parseList "," hexE blocks with
+  | some bs =>
+    let (w1, c) := rootClass w (denseRoot refHashers bs)
+    ({ w1 with dense := (name, bs) :: w1.dense }, s!"ok r{c}")
+  | none => (w, "bad-op")
+
+open Mel.Merkle in
+def handleDp (w : DWorld) (name idx mode : String) : String :=
+  match lookup w.dense name, idx.toNat? with
+  | some bs, some i =>
+    let proof := denseProof refHashers bs i
+    let root := denseRoot refHashers bs
+    let leaf := hashData refHashers (bs.getD i [])
+    match mode.splitOn ":" with
+    | ["honest"] => s!"{verifyDense refHashers proof root i leaf}"
+    | ["wrongleaf"] => s!"{verifyDense refHashers proof root i (hashData refHashers (bs.getD i [] ++ [7]))}"
+    | ["wrongidx", j] =>
+      match j.toNat? with
+      | some j => s!"{verifyDense refHashers proof root j leaf}"
+      | none => "bad-op"
+    | _ => "bad-op"
+  | _, _ => "bad-op"
+
 def handleLine (w : DWorld) (line : String) : DWorld × String :=
   match line.trimAscii.toString.splitOn " " with
   | ["dec", h] => (w, handleDec h)
@@ -286,6 +361,10 @@ def handleLine (w : DWorld) (line : String) : DWorld × String :=
   | ["run", p, h, o] => (w, handleRun p h o)
   | ["fm", m, d, t] => (w, handleFm m d t)
   | ["reset"] => ({}, "ok")
+  | ["mt", name, entries] => handleMt w name entries
+  | ["mp", name, key, mode] => (w, handleMp w name key mode)
+  | ["dt", name, blocks] => handleDt w name blocks
+  | ["dp", name, idx, mode] => (w, handleDp w name idx mode)
   | "fab" :: args => handleFab w args
   | "genesis" :: args => handleGenesis w args
   | ["next", src, dst, roots, hh] => handleNext w src dst roots hh
